@@ -14,8 +14,15 @@ mod app;
 mod batch;
 mod robust;
 mod mapmatch;
+mod interp;
 
 fn main() {
+    // panics of the code under test are recorded as events by util::guarded; keep stderr quiet
+    std::panic::set_hook(Box::new(|info| {
+        if std::env::var("VERIF_PANIC_TRACE").is_ok() {
+            eprintln!("{}", info);
+        }
+    }));
     let args: Vec<String> = std::env::args().collect();
     if args.len() < 2 {
         eprintln!("usage: vh <subcommand> [args]");
@@ -33,6 +40,7 @@ fn main() {
         "batch" => batch::main(rest),
         "robust" => robust::main(rest),
         "match" => mapmatch::main(rest),
+        "interp" => interp::main(rest),
         "robust-child" => robust::child(&rest[0]),
         other => {
             eprintln!("unknown subcommand {}", other);
